@@ -579,6 +579,9 @@ func (c *Client) blocks(ctx context.Context, url string, start, limit uint64) ([
 	if err != nil {
 		return nil, fmt.Errorf("requesting blocks: %w", err)
 	}
+	if uint64(len(resps)) < limit {
+		return nil, fmt.Errorf("requesting blocks: %d requests %d responses", limit, len(resps))
+	}
 	for i := range resps {
 		if resps[i].Error.Exists() {
 			const tag = "eth_getBlockByNumber"
@@ -656,6 +659,9 @@ func (c *Client) headers(ctx context.Context, url string, start, limit uint64) (
 	if err != nil {
 		return nil, fmt.Errorf("requesting headers: %w", err)
 	}
+	if uint64(len(resps)) < limit {
+		return nil, fmt.Errorf("requesting headers: %d requests %d responses", limit, len(resps))
+	}
 	for i := range resps {
 		if resps[i].Error.Exists() {
 			const tag = "eth_getBlockByNumber/headers"
@@ -705,6 +711,9 @@ func (c *Client) receipts(ctx context.Context, url string, bm blockmap, start, l
 	err := c.do(ctx, url, &resps, reqs)
 	if err != nil {
 		return fmt.Errorf("requesting receipts: %w", err)
+	}
+	if uint64(len(resps)) < limit {
+		return fmt.Errorf("requesting receipts: %d requests %d responses", limit, len(resps))
 	}
 	for i := range resps {
 		if resps[i].Error.Exists() {
@@ -796,10 +805,14 @@ func (c *Client) logs(ctx context.Context, url string, filter *glf.Filter, bm bl
 	if err != nil {
 		return fmt.Errorf("making logs request: %w", err)
 	}
-	var (
-		hresp = resp[0].(*headerResp)
-		lresp = resp[1].(*logResp)
-	)
+	if len(resp) != 2 {
+		return fmt.Errorf("making logs request: 2 requests %d responses", len(resp))
+	}
+	hresp, hok := resp[0].(*headerResp)
+	lresp, lok := resp[1].(*logResp)
+	if !hok || !lok {
+		return fmt.Errorf("making logs request: unexpected response")
+	}
 	switch {
 	case hresp.Error.Exists():
 		return fmt.Errorf("rpc=eth_getLogs/eth_getBlockByNumber %w", lresp.Error)
